@@ -118,6 +118,22 @@ Theorem C03_complete_spelled : forall cfg q t z a', QT cfg q t -> plain t -> for
 Proof. exact spelled_compiles. Qed.
 Print Assumptions C03_complete_spelled.
 
+(* the hypotheses are satisfiable:  $[ ?@ .a>= 1.5 &&!( count( @.* ) ==-2 )|| $['b'] != "x" ]  with count() registered *)
+Example C03_spelled_nonvacuous :
+  let rg := [([99; 111; 117; 110; 116]%N, {| f_args := [TNodes]; f_ret := TValue; f_impl := FCount |})] in
+  let cfg := {| min_idx := -9007199254740991; max_idx := 9007199254740991; max_depth := 100; reg := rg; rx := fun _ _ _ => false |} in
+  let z := [91;32;63;64;32;46;97;62;61;32;49;46;53;32;38;38;33;40;32;99;111;117;110;116;40;32;64;46;42;32;41;32;61;61;45;50;32;41;124;124;32;36;91;39;98;39;93;32;33;61;32;34;120;34;32;93]%N in
+  exists q t a', QT cfg q t /\ plain t /\ forallb is_scalar z = true /\ RunT a0 t z a' /\ m_compile cfg (36%N :: z) = Ok q.
+Proof.
+  intros rg cfg z. destruct (m_compile cfg (36%N :: z)) as [q| | |] eqn:E; try (vm_compute in E; discriminate E).
+  destruct (compiles_spelled_tok cfg _ q E) as (root & t & e & z' & a' & Htok & Ez & HQ & HR). inversion Ez; subst z'.
+  exists q, t, a'. split; [exact HQ|]. split; [|split; [vm_compute; reflexivity | split; [exact HR | reflexivity]]].
+  (* t is the token list the lexer computed, minus ROOT and EOF: plain by computation *)
+  apply plainb_sound. vm_compute in Htok. inversion Htok as [[Er Et]].
+  match type of Et with ?L = _ => assert (EL : exists mid lst, L = mid ++ [lst] /\ forallb plain_tokb mid = true) by (exists (removelast L), (last L eof_token); split; vm_compute; reflexivity) end.
+  destruct EL as (mid & lst & EL & Hp). rewrite EL in Et. apply app_inj_tail in Et as [<- _]. exact Hp.
+Qed.
+
 Theorem C03_accepts_only_spellings : forall cfg q z, m_compile cfg (36%N :: z) = Ok q -> exists t a', QT cfg q t /\ RunT a0 t z a'.
 Proof. intros cfg q z Hc. destruct (compiles_spelled cfg _ q Hc) as (t & z' & a' & E & HQ & HR). inversion E; subst z'. exists t, a'. split; assumption. Qed.
 Print Assumptions C03_accepts_only_spellings.
